@@ -60,7 +60,22 @@ def _run_z3(smt: str, timeout_ms: int) -> tuple[str, dict[str, str], str]:
         return "unsat", {}, ""
     if r == z3.sat:
         m = s.model()
+        # z3's sequence solver has answered `sat` with a model that falsifies an assertion (observed: the same
+        # query is unsat under 11 of 12 random seeds and in cvc5): a `sat` counts only when the model checks.
+        inconclusive = False
+        for a in s.assertions():
+            try:
+                v = m.eval(a, model_completion=True)
+            except z3.Z3Exception:
+                inconclusive = True
+                continue
+            if z3.is_false(v):
+                return "unknown", {}, "z3 answered sat with a model that falsifies an assertion (discarded)"
+            if not z3.is_true(v):
+                inconclusive = True
         out = {}
+        if inconclusive:
+            out["$unvalidated"] = "model evaluation inconclusive"
         for d in m.decls():
             nm = d.name()
             if nm.startswith("w!"):
@@ -108,6 +123,19 @@ def _work(job: tuple[int, str, bool, int, bool]) -> tuple[int, str, str, float, 
     short = min(timeout_ms, 3000)
     r, model, why = _run_z3(smt, short)
     backend = "z3"
+    if r == "sat" and "$unvalidated" in model and not cover:
+        # a refutation needs a checked model or the second solver's agreement
+        r2, why2 = _run_cvc5(smt, timeout_ms)
+        if r2 == "unsat":
+            r, model, why = "unsat", {}, ""
+            backend = "cvc5"
+        elif r2 != "sat":
+            r, why = "unknown", f"z3 sat (model not checkable), cvc5 {why2 or r2}"
+            model = {}
+            dt = time.time() - t0
+            return i, "undecided", "z3+cvc5", dt, {}, why
+        else:
+            backend = "z3+cvc5"
     if r in ("unknown", "error"):
         r2, why2 = _run_cvc5(smt, timeout_ms)
         if r2 in ("sat", "unsat"):
